@@ -11,7 +11,10 @@ once. -/
 theorem one_socket (acts : List ZAct) :
     (Zmq.init.run acts).factoryCalls ≤ 1 ∧
     ((Zmq.init.run acts).writes ≠ [] → (Zmq.init.run acts).factoryCalls = 1) := by
-  sorry
+  have h := ZInv.run_init acts
+  have hfc := h.fc
+  refine ⟨by rw [hfc]; split <;> omega, fun hw => ?_⟩
+  rw [hfc, if_pos (Or.inl (h.wsock hw))]
 
 /-- **queued messages are written once each, in queue order**: what the queue loop
 (sender 0) has written, followed by the message it holds (if it has not written it yet) and
@@ -20,22 +23,48 @@ theorem queued_in_order_once (acts : List ZAct) :
     let z := Zmq.init.run acts
     ∃ inflight : List Nat, inflight.length ≤ 1 ∧
       (z.writes.filter (fun w => w.1 == 0)).map (·.2) ++ inflight ++ z.queue = z.queued := by
-  sorry
+  obtain ⟨s0, _, hq⟩ := (ZInv.run_init acts).q
+  exact ⟨s0.infl, s0.infl_length_le, hq⟩
 
 /-- direct sequences are written in their own order, each message at most once. -/
 theorem direct_in_order (acts : List ZAct) (i : Nat) (hi : 0 < i) (s : Sender)
     (hs : (Zmq.init.run acts).senders[i]? = some s) :
     ∃ inflight : List Nat, inflight.length ≤ 1 ∧
       ((Zmq.init.run acts).writes.filter (fun w => w.1 == i)).map (·.2) ++ inflight ++ s.todo = s.orig := by
-  sorry
+  exact ⟨s.infl, s.infl_length_le, (ZInv.run_init acts).d i s hi hs⟩
 
 /-- serialisation is part by part: bytes unchanged, part `i` of the output depends only on
 part `i` of the input. -/
 theorem serialize_parts (m : List Part) :
     (serialize m).length = m.length ∧ ∀ i : Nat, (serialize m)[i]? = (m[i]?).map serializePart := by
-  sorry
+  simp [serialize]
 
-theorem serialize_bytes (b : List UInt8) : serializePart (.bytes b) = b := by
-  sorry
+theorem serialize_bytes (b : List UInt8) : serializePart (.bytes b) = b := rfl
+
+/-! non-vacuity -/
+
+/-- the queue loop (sender 0) and a direct sequence (sender 1) race for the lock before the
+socket exists: sender 0 gets the lock and calls the factory, sender 1 blocks as a waiter and
+finds the socket afterwards; one factory call, both messages written. -/
+example :
+    let z := Zmq.init.run [.enqueue 5, .spawn [7], .step 0, .step 1, .step 0, .step 1,
+      .step 0, .step 1, .step 0, .step 1]
+    z.factoryCalls = 1 ∧ z.writes = [(0, 5), (1, 7)] ∧ z.waiters = [] ∧ z.lockHeld = none := by
+  decide
+
+/-- the intermediate state of the race above: sender 0 holds the lock inside the factory,
+sender 1 is queued on the lock, no socket yet. -/
+example :
+    let z := Zmq.init.run [.enqueue 5, .spawn [7], .step 0, .step 1, .step 0, .step 1]
+    z.socket = false ∧ z.lockHeld = some 0 ∧ z.waiters = [1] ∧ z.factoryCalls = 1 ∧
+      z.senders.map (·.pc) = [.inFactory, .wantLock] := by
+  decide
+
+/-- three queued messages are taken and written by the queue loop in queue order. -/
+example :
+    let z := Zmq.init.run ([.enqueue 1, .enqueue 2, .enqueue 3] ++ List.replicate 13 (.step 0))
+    z.writes = [(0, 1), (0, 2), (0, 3)] ∧ z.queue = [] ∧ z.queued = [1, 2, 3] ∧
+      z.factoryCalls = 1 := by
+  decide
 
 end Tickit
